@@ -184,6 +184,27 @@ def scenic_lines(c):
         L.append(op_line(f"r{i}", c["ref"]))
         L.append(f"param c{i} = apparent heading of r{i} from {fv(c['from'])}")
         return L, "param"
+    if k == "facep":
+        if c["fk"] == "field":
+            L.append(f'vf{i} = VectorField("vf{i}", lambda pos: {fo(c["fa"])} if pos.x > 0.125 else {fo(c["fb"])})')
+            facing = f"facing vf{i}"
+        else:
+            facing = f"facing {fo(c['fa'])}"
+        new = f"{dims_txt(c['ndim'])}, with contactTolerance {c['ct'] / lat3.SCALE}, {COMMON}{tag(i)}"
+        pm = c["pm"]
+        if pm == "with":
+            L.append(f"c{i} = new Object at {fv(c['base'])}, {facing}, with parentOrientation {fo(c['par'])}, {new}")
+        elif pm == "ahead":
+            L.append(op_line(f"r{i}", dict(c["par"], p=c["base"])))
+            L.append(f"c{i} = new Object ahead of r{i} by {c['D'] / lat3.SCALE}, {facing}, {new}")
+        elif pm == "offsetby":
+            L.append(obj_line("ego", dict(c["par"], p=c["base"])))
+            L.append(f"c{i} = new Object offset by {fv(c['V'])}, {facing}, {new}")
+        else:
+            L.append(f'gf{i} = VectorField("gf{i}", lambda pos: {fo(c["par"])})')
+            L.append(f'reg{i} = PointSetRegion("reg{i}", [{fv(c["base"])}], orientation=gf{i})')
+            L.append(f"c{i} = new Object {pm} reg{i}, {facing}, {new}")
+        return L, "obj"
     if k == "ori":
         return [], "api"
     raise MachineryError(f"no printer for kind {k}")
@@ -307,6 +328,20 @@ def _generate_pass(tier, rng, cases):
             kr = rng.randrange(4)
             # orientation with zero pitch whose heading is hd: yaw hd, roll arbitrary
             add(kind="apphead", ref={"p": p, "yq": hd, "e": [0, 0, kr]}, hd=hd, nxy=nxy, **{"from": [p[0] - x, p[1] - y, p[2] + 4]})
+    # ---- facing <vector field> / facing <value> under an explicit or inherited parent orientation
+    # (every cube rotation can be the parent, pitched and rolled ones included; field values are full 3D
+    # orientations or pure yaws; most pairs do not commute)
+    fvals = some_orients(6, pyth=2)
+    npar = 5 if tier == "quick" else 24
+    for pm in ("with", "ahead", "offsetby", "in", "on"):
+        pars = some_orients(npar, pyth=1)
+        if tier == "quick":  # always one yaw-only and two tilted parents
+            pars = [orient((1, 0, 0)), orient((0, 1, 0)), orient((1, 3, 0))] + pars[4:]
+        for par in pars:
+            for fk in ("field", "field", "value"):
+                fa, fb = rng.sample(fvals + [orient((0, 1, 0)), orient((2, 0, 1)), orient((3, 3, 0))], 2)
+                add(kind="facep", pm=pm, fk=fk, par=par, base=qv(P()), D=rng.choice([2, 4, 6]), V=rng.choice([[4, 8, 12], [-8, 4, 6], [12, -4, -8]]),
+                    ndim=rng.choice([[4, 8, 12], [12, 4, 8]]), ct=2, fa=fa, fb=fb)
     # ---- Orientation / Vector algebra through the Python API
     for o1 in some_orients(nq, pyth=2):
         add(kind="ori", sub="euler", o1=o1, o2=orient(), V=[0, 0, 0])
@@ -447,6 +482,7 @@ def main(tier):
     if res.coverage.get("Pick", (0, 0))[1] == 0:
         raise MachineryError("GeomSpec.tla: Pick never taken")
     exp = {o["id"]: o["e"] for o in res.outputs}
+    noncommuting = {o["id"] for o in res.outputs if o.get("nc")}
     if len(exp) != len(cases):
         raise MachineryError(f"TLC printed {len(exp)} expected records for {len(cases)} cases")
 
@@ -460,7 +496,7 @@ def main(tier):
     results = pmap(run_program, progs, chunk=1)
 
     kinds = {}
-    stats = {"free_orientation": 0, "known": 0}
+    stats = {"free_orientation": 0, "known": 0, "facing_under_parent_noncommuting": 0}
     for prog, rr in zip(progs, results):
         if "error" in rr:
             # find the culprit by re-running the cases one by one (a well-formed case must compile and generate)
@@ -478,11 +514,15 @@ def main(tier):
                 continue
             e, o = exp[c["id"]], rr["obs"][c["id"]]
             key = c["kind"] + ("/" + c["sub"] if "sub" in c else "") + ("/" + c["tk"] if "tk" in c else "")
+            if c["kind"] == "facep":
+                key += f"/{c['pm']}/{c['fk']}"
             kinds[key] = kinds.get(key, 0) + 1
             nontrivial = any(isinstance(v, dict) and (v.get("e") not in (None, [0, 0, 0]) or v.get("yq") not in (None, [1, 0, 1])) for v in c.values())
             ck.case(json.dumps({k: v for k, v in c.items() if k != "id"}, sort_keys=True), nontrivial)
             if e["free"]:
                 stats["free_orientation"] += 1
+            if c["id"] in noncommuting:
+                stats["facing_under_parent_noncommuting"] += 1
             bad, rot_dev = compare(c, e, o)
             if not bad:
                 ck.validated()
